@@ -22,6 +22,9 @@ EXTRA = [
     "start: \"match\" NAME | 'x' NEWLINE\n",
     "start: invalid_x* NAME\ninvalid_x: 'q'\n",
     "start: ','.(a | b)+ NEWLINE\na: 'a'\nb: 'b'\n",
+    "start: NAME &&(NUMBER*) NEWLINE\n",
+    "start: &&(NAME?) NUMBER NEWLINE\n",
+    "start: &&([NAME]) [(NUMBER*)] NEWLINE\n",
 ]
 
 
@@ -180,6 +183,9 @@ def run(chk: common.Check, tier: str):
             continue
         for i, t in enumerate(sample):
             chk.count()
+            if got.get(i) == "REFUSED-BY-VALIDATOR":
+                chk.bump("command line refuses the grammar (validator), nothing written")
+                continue
             if got.get(i) != base.get(i):
                 chk.violation(f"output differs between (in-memory, PYTHONHASHSEED=0) and ({entry}, PYTHONHASHSEED={seed}"
                               f"{', after warm-up generations' if warm else ''})",
